@@ -666,6 +666,13 @@ impl Ics20Scen {
             bal.push(parts.join("|"));
         }
         out.push_str(&format!(" bal={}", bal.join(",")));
+        // the cw2 item (raw read; `migrate` reads and writes it): with it the observation shows everything the
+        // contract's later behaviour depends on (model resynchronisation)
+        let cw2 = match self.contract.clone().map(|c| cw2::query_contract_info(&self.app.wrap(), c)) {
+            Some(Ok(v)) => format!("{}@{}", v.contract, v.version),
+            _ => "-".to_string(),
+        };
+        out.push_str(&format!(" cw2={cw2}"));
         out
     }
 
